@@ -575,3 +575,17 @@ func ReplayFiles(t *testing.T, r *Runner, prop string, files []string) {
 		fmt.Printf("VX-REPLAY %s %s\n", f, vb)
 	}
 }
+
+// Debugf appends a line to the file named by VX_DEBUG (development aid; silent otherwise).
+func Debugf(format string, a ...interface{}) {
+	p := os.Getenv("VX_DEBUG")
+	if p == "" {
+		return
+	}
+	f, err := os.OpenFile(p, os.O_APPEND|os.O_CREATE|os.O_WRONLY, 0o644)
+	if err != nil {
+		return
+	}
+	fmt.Fprintf(f, "%s "+format+"\n", append([]interface{}{time.Now().Format("15:04:05.000")}, a...)...)
+	f.Close()
+}
